@@ -25,6 +25,7 @@ import Mfi.Lemmas.TagL
 import Mfi.Lemmas.AccrualL
 import Mfi.Lemmas.SolvL
 import Mfi.Lemmas.WorldSolvH
+import Mfi.Lemmas.WorldTxSolv
 
 namespace Mfi.Props.C01
 open Mfi Mfi.Fx Mfi.Bank Mfi.Interest Mfi.Gen Mfi.AccrualL
@@ -552,6 +553,22 @@ theorem world_solvency_initial (now : Int) (g : GroupV) (banks : List WBank) (n 
     exact ⟨Int.le_refl _, Int.le_refl _⟩
   · intro j b hj
     exact hb b (List.mem_of_getElem? hj)
+
+/-- **world_solvency_over_transactions**: over EVERY sequence of TRANSACTIONS of the world state machine — lists of whole
+    instructions, flash-loan starts / ends and liquidation starts / ends, executed atomically, a refused instruction rolling its
+    whole transaction back with all its ledger movements — the invariant holds throughout, every bank keeps its place and key,
+    no bank's potential (vault·2^96 − claims + allowance consumed + sanctioned write-offs) falls, no debt share value falls.
+    Inside a flash loan or a receivership the health checks are deferred; the books and the vault are not. -/
+theorem world_solvency_over_transactions (txs : List (List TOp)) (w : WState) (g : Ghost) (hi : SInv w)
+    (hok : ∀ tx ∈ txs, ∀ t ∈ tx, t.Ok) :
+    SInv (w.runTxsE g txs).1 ∧ ∀ (j : Nat) (x : WBank), w.banks[j]? = some x →
+      ∃ x', (w.runTxsE g txs).1.banks[j]? = some x' ∧ x'.v.key = x.v.key ∧ pot g x ≤ pot (w.runTxsE g txs).2 x' ∧
+        x.v.books.lsv ≤ x'.v.books.lsv :=
+  runTxsE_good txs w g hi hok
+
+/-- the ledger-instrumented transaction is the transaction (`WorldTx.runTx`; rolled back = the state as it was) -/
+theorem world_ghost_tx_is_the_tx (w : WState) (g : Ghost) (tx : List TOp) : (w.runTxE g tx).1 = (w.runTx tx).getD w :=
+  runTxE_fst w g tx
 
 def demoIr : IrCalc :=
   { optimal := 0, plateau := 0, maxIr := 0, insFixed := 0, insRate := 0, grpFixed := 0, grpRate := 0,
